@@ -41,7 +41,7 @@ def repo_fingerprint():
     h = hashlib.sha256()
     for f in sorted(glob.glob(os.path.join(REPO, 'include', 'amc', '*.hpp'))):
         h.update(f.encode()); h.update(open(f, 'rb').read())
-    for f in sorted(glob.glob(os.path.join(VERIF, 'driver', '*'))) + [os.path.join(TOOLS, t) for t in ('astload.py', 'ctypes_map.py', 'cxx2c.py')]:
+    for f in sorted(glob.glob(os.path.join(VERIF, 'driver', '*'))) + [os.path.join(TOOLS, t) for t in ('astload.py', 'ctypes_map.py', 'cxx2c.py')] + sorted(glob.glob(os.path.join(GHOST, 'l0*.h'))):
         h.update(f.encode()); h.update(open(f, 'rb').read())
     return h.hexdigest()
 
